@@ -778,6 +778,7 @@ class Parser(object):
         * Data table of a step (after the step line)
         * Examples table of a ScenarioOutline
         """
+        this_line = line
         line = line.strip()
         if not line.startswith("|"):
             # -- CASE: End-of-table detected
@@ -794,7 +795,7 @@ class Parser(object):
             # -- RESET: Parameters for parsing the next step(s).
             self.table = None
             self.state = State.STEPS
-            return self.action_steps(line)
+            return self.action_steps(this_line)
 
         if not re.match(r"^(|.+)\|$", line):
             logger = logging.getLogger("behave")
